@@ -42,6 +42,10 @@ CHECKS = {
         'property-based testing: metamorphic relation over whitespace/comment layouts + reference oracle RefPEG under the effective configuration + layering differential (compile-time < directive < parse-time)',
         'Generated grammars x configurations (whitespace default/regex/none, nameguard, namechars, ignorecase, comments and eol_comments as directives or settings) x sentences in base/varied/adversarial layouts: outcome(varied)==outcome(base); every layout agrees with the reference; each setting given at any subset of the three layers behaves like the single effective value. Exploration.',
         REF_NOTE + '; whitespace/comment patterns are assumed non-nullable; nameguard=False together with namechars is not generated (config.py forces nameguard on)', 'DESIGN.md §3 C09'),
+    'C11': (
+        'property-based testing: generated grammars with an @name rule spliced into choices/closures/lookaheads, keywords in any case; reference oracle RefPEG-with-keywords + collecting-semantics assertion + undecorated-grammar differential + model-vs-generated differential',
+        'Generated grammars x keywords x ignorecase (directive / parse-time / off) x inputs whose identifiers are drawn from keywords, prefixes, suffixes and case variants: the @name rule never hands a keyword to its action; outcomes agree with the reference, with the undecorated grammar when no keyword was seen, and between model and generated parser. Exploration.',
+        REF_NOTE, 'DESIGN.md §3 C11'),
     'C12': (
         'exhaustive enumeration of short strings x offsets against an independent line splitter; property-based parseinfo check against RefPEG trace',
         '(a) every string over {a, space, LF, CR} up to length 6 (quick) / 9 (thorough) x every offset x both input classes, exhaustively, plus '
